@@ -497,6 +497,9 @@ example : parseFloat "+.5".toList = some (1/2) := by decide +kernel
 example : parseFloat "1.5e2".toList = some 150 := by decide +kernel
 example : parseFloat "25E-1".toList = some (5/2) := by decide +kernel
 example : parseFloat "oops".toList = none := by decide +kernel
+-- a number beyond the range of float64 is a range error of `strconv.ParseFloat`: no data point (and the largest float64 is one)
+example : parseFloat "1e400".toList = none ∧ parseFloat "-1e999".toList = none ∧
+    (parseFloat "1.7976931348623157e308".toList).isSome = true := by decide +kernel
 example : parseFloat "".toList = none := by decide +kernel
 example : parseFloat "1.2.3".toList = none := by decide +kernel
 example : parseFloat "1e".toList = none := by decide +kernel
